@@ -50,7 +50,7 @@ TopSrcs == {"cwd", "I", "S"}
 \* --- commands on members
 CmdHeads == {<<"class", FALSE, FALSE>>}
 CmdMembers == <<{Mem(k, "published") : k \in {"meth", "data", "dtor", "usep"}}, {}>>
-CmdMembersT == <<{Mem(k, l) : k \in {"meth", "smeth", "data", "dtor", "ctor", "usep", "gct"}, l \in {"published", "public"}}, {}>>
+CmdMembersT == <<{Mem(k, "published") : k \in {"meth", "smeth", "data", "dtor", "ctor", "usep"}} \cup {Mem("gct", "public")}, {}>>
 CmdAll == {"ignoremember", "ignoretype", "ignoreinvolved", "forcetype"}
 
 M40 == <<4, 0>>
